@@ -58,6 +58,24 @@ def handle (op : String) (args : List String) : Option String :=
     | [] => some "false"
   else if op == "c02.corpus.slice_non_triangle" then
     some "rejected"   -- SliceByPlane accepts triangle meshes only (defect fixed in /repo dbd042b; kept as corpus)
+  else if op == "c02.holds.cbw_shape" then
+    -- ConstrainedBowyerWatson output has the shape the abstract model CBW (Props/C02Delaunay.constrainedBowyerWatson_wf)
+    -- assumes: points are appended in pairs, a triangle uses no appended point, or one (the first of a pair), or
+    -- both points of one pair
+    match args with
+    | ns :: rest =>
+      match ns.toNat?, pMesh rest with
+      | some n, some (m, []) =>
+        let okTri := fun (t : Nat × Nat × Nat) =>
+          let big := ([t.1, t.2.1, t.2.2].filter (· ≥ n)).map (· - n)
+          match big with
+          | [] => true
+          | [p] => p % 2 == 0
+          | [p, q] => (p % 2 == 0 && q == p + 1) || (q % 2 == 0 && p == q + 1)
+          | _ => false
+        some (boolStr (n ≤ m.attrLen && (m.attrLen - n) % 2 == 0 && (PolyVerif.Mesh.triples m.indices).all okTri))
+      | _, _ => some "false"
+    | [] => some "false"
   else if op == "c02.holds.polygon_full" then
     some (boolStr ((polygonFull args).getD false))
   else if op == "c02.gen.extrude_polygon_accepts" then
